@@ -302,13 +302,10 @@ func runC06(c *Ctx) {
 				continue
 			}
 			ntrue++
-			if !isC {
-				okThr = false // a computed answer: not the guarded constant form
-				continue
-			}
-			if !onEdge(b, func(cond ssa.Value, pol bool) bool {
+			// reference - seqno > 256 (or >= 257)
+			isThr := func(cond ssa.Value) bool {
 				bo, ok := cond.(*ssa.BinOp)
-				if !ok || !pol {
+				if !ok {
 					return false
 				}
 				sub, ok := bo.X.(*ssa.BinOp)
@@ -316,7 +313,34 @@ func runC06(c *Ctx) {
 					return false
 				}
 				return (bo.Op == token.GTR && isConst(bo.Y, 256)) || (bo.Op == token.GEQ && isConst(bo.Y, 257))
-			}) {
+			}
+			thrEdge := func(cond ssa.Value, pol bool) bool { return pol && isThr(cond) }
+			// the value returned is true only when the threshold test is: the constant
+			// true behind the test, the test itself, or a phi of such values and false
+			var okVal func(v ssa.Value, at *ssa.BasicBlock, depth int) bool
+			okVal = func(v ssa.Value, at *ssa.BasicBlock, depth int) bool {
+				if depth > 6 {
+					return false
+				}
+				switch x := v.(type) {
+				case *ssa.Const:
+					if x.Value != nil && x.Value.String() == "false" {
+						return true
+					}
+					return onEdge(at, thrEdge)
+				case *ssa.BinOp:
+					return isThr(x)
+				case *ssa.Phi:
+					for i, e := range x.Edges {
+						if !okVal(e, x.Block().Preds[i], depth+1) {
+							return false
+						}
+					}
+					return true
+				}
+				return false
+			}
+			if !okVal(r.Results[0], b, 0) {
 				okThr = false
 			}
 		}
@@ -778,6 +802,77 @@ func checkNackRequests(c *Ctx, rule string) {
 			}
 		}
 		okKeep := false
+		// third idiom: list = slices.DeleteFunc(list, func(e) bool {...}) - an entry is kept
+		// where the function returns false, which it may do only if Get(e, nil) > 0 is false
+		if keep == nil && getc != nil {
+			ast.Inspect(nw.Body(), func(n ast.Node) bool {
+				as, ok := n.(*ast.AssignStmt)
+				if !ok || len(as.Lhs) != 1 || len(as.Rhs) != 1 {
+					return true
+				}
+				call, ok := unparen(as.Rhs[0]).(*ast.CallExpr)
+				if !ok || len(call.Args) != 2 {
+					return true
+				}
+				if f := calleeOf(&CallSite{Call: call, In: nw}); f == nil || f.Pkg() == nil || f.Pkg().Path() != "slices" || f.Name() != "DeleteFunc" {
+					return true
+				}
+				lit, ok := unparen(call.Args[1]).(*ast.FuncLit)
+				if !ok || !(lit.Pos() <= getc.Pos() && getc.End() <= lit.End()) || len(lit.Type.Params.List) != 1 || len(lit.Type.Params.List[0].Names) != 1 {
+					return true
+				}
+				// Get is asked about the element
+				pobj := info.ObjectOf(lit.Type.Params.List[0].Names[0])
+				if id, isId := unparen(getc.Args[0]).(*ast.Ident); !isId || info.ObjectOf(id) != pobj {
+					return true
+				}
+				src := p.SrcOfLit(lit)
+				if src == nil {
+					return true
+				}
+				lf := eng.Analyze(src)
+				res := &Term{K: 'r', Name: "res0", Pos: getc.Lparen}
+				gt := lf.term(getc)
+				okAll, nret := true, 0
+				for _, ret := range lf.Returns() {
+					if len(ret.Results) != 1 {
+						okAll = false
+						continue
+					}
+					nret++
+					r := unparen(ret.Results[0])
+					if tv := info.Types[r]; tv.Value != nil {
+						if tv.Value.String() == "true" {
+							continue // dropped
+						}
+						// kept: Get returned 0 on every path here
+						st, _ := lf.At(ret)
+						held := false
+						if st != nil {
+							for _, f := range st.Facts() {
+								if f.Op == "lt" && !f.Pos && f.A.Name == "0" && f.B != nil && (st.EqualUnder(f.B, res) || (gt != nil && f.B.String() == gt.String())) {
+									held = true
+								}
+							}
+						}
+						if !held {
+							okAll = false
+						}
+						continue
+					}
+					// return Get(e, nil) > 0: kept exactly when it is not
+					be, isB := r.(*ast.BinaryExpr)
+					if !(isB && ((be.Op == token.GTR && unparen(be.X) == ast.Expr(getc) && isZeroConst(info, be.Y)) || (be.Op == token.NEQ && unparen(be.X) == ast.Expr(getc) && isZeroConst(info, be.Y)) || (be.Op == token.LSS && unparen(be.Y) == ast.Expr(getc) && isZeroConst(info, be.X)))) {
+						okAll = false
+					}
+				}
+				if okAll && nret > 0 && types.ExprString(as.Lhs[0]) == types.ExprString(call.Args[0]) {
+					okKeep = true
+					filtered = as.Lhs[0]
+				}
+				return true
+			})
+		}
 		if keep != nil {
 			st, _ := facts.At(keep)
 			res := &Term{K: 'r', Name: "res0", Pos: getc.Lparen}
@@ -867,9 +962,24 @@ func checkNackRequests(c *Ctx, rule string) {
 					if k, ok := x.Low.(*ssa.Const); ok && k.Int64() == 1 && x.High == nil {
 						okAdv = true
 					}
+					// or an index that advances by one per bit and the tail seqnos[n:] at the end
+					if ph, ok := x.Low.(*ssa.Phi); ok && x.High == nil {
+						for _, e := range ph.Edges {
+							if add, ok := e.(*ssa.BinOp); ok && add.Op == token.ADD && add.X == ssa.Value(ph) {
+								if k, ok := add.Y.(*ssa.Const); ok && k.Int64() == 1 {
+									okAdv = true
+								}
+							}
+						}
+					}
 				}
 			}
 		}
 		c.Check(okBit && okAdv, rule, "ToBitmap: bit (s - first - 1), one number consumed per bit", tb.Pos(), "bitmap |= 1 << (remain[0]-first-1); remain = remain[1:]", "the packing of sorted numbers into a NACK pair loses or misplaces numbers")
 	}
+}
+
+func isZeroConst(info *types.Info, e ast.Expr) bool {
+	tv, ok := info.Types[e]
+	return ok && tv.Value != nil && tv.Value.String() == "0"
 }
